@@ -866,6 +866,124 @@ func ghostSpellsTypeArg(argExpr ast.Expr, err error, typeArgs *types.TypeList, i
 	}
 }
 
+// --- function, struct and interface types -------------------------------------------------------------------
+
+func namedBy(f *ast.Field, name string) bool {
+	return len(f.Names) == 1 && f.Names[0] != nil && f.Names[0].Name == name
+}
+
+// isVariadicLast: parameter i is the `...T` parameter of a variadic function (its type is []T)
+func isVariadicLast(sig *types.Signature, i int) bool {
+	return sig.Variadic() && i == sig.Params().Len()-1 && vs.TypeIs[*types.Slice](sig.Params().At(i).Type())
+}
+
+// paramSpelled: parameter i is `arg<i> T`, the variadic one `arg<i> ...T`
+func paramSpelled(f *ast.Field, sig *types.Signature, i int) bool {
+	return f != nil && vs.IsAllocated(f) && namedBy(f, fmt.Sprintf("arg%d", i)) &&
+		vs.Implies(!isVariadicLast(sig, i), spelledFor(f.Type, sig.Params().At(i).Type()) && vs.IsAllocated(f.Type)) &&
+		vs.Implies(isVariadicLast(sig, i), vs.TypeIs[*ast.Ellipsis](f.Type) && vs.As[*ast.Ellipsis](f.Type) != nil &&
+			spelledFor(vs.As[*ast.Ellipsis](f.Type).Elt, vs.As[*types.Slice](sig.Params().At(i).Type()).Elem()) &&
+			vs.IsAllocated(vs.As[*ast.Ellipsis](f.Type).Elt))
+}
+
+func resultSpelled(f *ast.Field, sig *types.Signature, i int) bool {
+	return f != nil && vs.IsAllocated(f) && namedBy(f, fmt.Sprintf("result%d", i)) &&
+		spelledFor(f.Type, sig.Results().At(i).Type()) && vs.IsAllocated(f.Type)
+}
+
+// the clauses of paramSpelled / resultSpelled, one invariant each
+func fieldsAreNew(fs []*ast.Field, n int) bool {
+	return vs.Forall(n, func(j int) bool { return fs[j] != nil && vs.IsAllocated(fs[j]) && !vs.Old(vs.IsAllocated(fs[j])) })
+}
+
+func fieldTypesAreNew(fs []*ast.Field, n int) bool {
+	return vs.Forall(n, func(j int) bool { return exprIsNew(fs[j].Type) })
+}
+
+func paramsNamed(fs []*ast.Field, n int) bool {
+	return vs.Forall(n, func(j int) bool { return namedBy(fs[j], fmt.Sprintf("arg%d", j)) })
+}
+
+func resultsNamed(fs []*ast.Field, n int) bool {
+	return vs.Forall(n, func(j int) bool { return namedBy(fs[j], fmt.Sprintf("result%d", j)) })
+}
+
+func paramTypesSpelled(fs []*ast.Field, sig *types.Signature, n int) bool {
+	return vs.Forall(n, func(j int) bool {
+		return vs.Implies(!isVariadicLast(sig, j), spelledFor(fs[j].Type, sig.Params().At(j).Type()) && vs.IsAllocated(fs[j].Type)) &&
+			vs.Implies(isVariadicLast(sig, j), vs.TypeIs[*ast.Ellipsis](fs[j].Type) && vs.As[*ast.Ellipsis](fs[j].Type) != nil &&
+				spelledFor(vs.As[*ast.Ellipsis](fs[j].Type).Elt, vs.As[*types.Slice](sig.Params().At(j).Type()).Elem()) &&
+				vs.IsAllocated(vs.As[*ast.Ellipsis](fs[j].Type).Elt))
+	})
+}
+
+func resultTypesSpelled(fs []*ast.Field, sig *types.Signature, n int) bool {
+	return vs.Forall(n, func(j int) bool { return spelledFor(fs[j].Type, sig.Results().At(j).Type()) && vs.IsAllocated(fs[j].Type) })
+}
+
+func spellsSignature(e ast.Expr, sig *types.Signature) bool {
+	return vs.TypeIs[*ast.FuncType](e) && vs.As[*ast.FuncType](e) != nil &&
+		vs.As[*ast.FuncType](e).Params != nil && len(vs.As[*ast.FuncType](e).Params.List) == sig.Params().Len() &&
+		vs.Forall(sig.Params().Len(), func(i int) bool { return paramSpelled(vs.As[*ast.FuncType](e).Params.List[i], sig, i) }) &&
+		vs.As[*ast.FuncType](e).Results != nil && len(vs.As[*ast.FuncType](e).Results.List) == sig.Results().Len() &&
+		vs.Forall(sig.Results().Len(), func(i int) bool { return resultSpelled(vs.As[*ast.FuncType](e).Results.List[i], sig, i) })
+}
+
+// fieldSpelled: field i keeps its name (an embedded field has none of its own), its type and its tag
+func fieldSpelled(f *ast.Field, st *types.Struct, i int) bool {
+	return f != nil && vs.IsAllocated(f) && spelledFor(f.Type, st.Field(i).Type()) && vs.IsAllocated(f.Type) &&
+		vs.Implies(st.Field(i).Embedded(), len(f.Names) == 0) &&
+		vs.Implies(!st.Field(i).Embedded(), namedBy(f, st.Field(i).Name())) &&
+		vs.Implies(st.Tag(i) == "", f.Tag == nil) &&
+		vs.Implies(st.Tag(i) != "", f.Tag != nil && f.Tag.Kind == token.STRING && f.Tag.Value == strconv.Quote(st.Tag(i)))
+}
+
+func spellsStruct(e ast.Expr, st *types.Struct) bool {
+	return vs.TypeIs[*ast.StructType](e) && vs.As[*ast.StructType](e) != nil && vs.As[*ast.StructType](e).Fields != nil &&
+		len(vs.As[*ast.StructType](e).Fields.List) == st.NumFields() &&
+		vs.Forall(st.NumFields(), func(i int) bool { return fieldSpelled(vs.As[*ast.StructType](e).Fields.List[i], st, i) })
+}
+
+func methodSpelled(f *ast.Field, m *types.Func) bool {
+	return f != nil && vs.IsAllocated(f) && namedBy(f, m.Name()) && spelledFor(f.Type, types.Type(m.Signature())) && vs.IsAllocated(f.Type)
+}
+
+func spellsInterface(e ast.Expr, it *types.Interface) bool {
+	return vs.TypeIs[*ast.InterfaceType](e) && vs.As[*ast.InterfaceType](e) != nil && vs.As[*ast.InterfaceType](e).Methods != nil &&
+		len(vs.As[*ast.InterfaceType](e).Methods.List) == len(vs.YieldSeq(it.Methods())) &&
+		vs.Forall(len(vs.YieldSeq(it.Methods())), func(i int) bool {
+			return methodSpelled(vs.As[*ast.InterfaceType](e).Methods.List[i], vs.YieldSeq(it.Methods())[i])
+		})
+}
+
+//kvc:ghost createASTTypeExpr@spelling after "expr, err := createASTTypeExpr(pkg, paramType, varPool, imports)"
+func ghostSpellsParam(expr ast.Expr, err error, paramType types.Type) {
+	if err == nil {
+		gSpells[expr] = paramType
+	}
+}
+
+//kvc:ghost createASTTypeExpr@spelling after "expr, err := createASTTypeExpr(pkg, typ.Results().At(i).Type(), varPool, imports)"
+func ghostSpellsResult(expr ast.Expr, err error, typ *types.Signature, i int) {
+	if err == nil {
+		gSpells[expr] = typ.Results().At(i).Type()
+	}
+}
+
+//kvc:ghost createASTTypeExpr@spelling after "expr, err := createASTTypeExpr(pkg, typ.Field(i).Type(), varPool, imports)"
+func ghostSpellsField(expr ast.Expr, err error, typ *types.Struct, i int) {
+	if err == nil {
+		gSpells[expr] = typ.Field(i).Type()
+	}
+}
+
+//kvc:ghost createASTTypeExpr@spelling after "expr, err := createASTTypeExpr(pkg, method.Signature(), varPool, imports)"
+func ghostSpellsMethod(expr ast.Expr, err error, method *types.Func) {
+	if err == nil {
+		gSpells[expr] = types.Type(method.Signature())
+	}
+}
+
 //kvc:contract createASTTypeExpr@spelling
 func contract_createASTTypeExpr_spelling(pkg string, t types.Type, varPool *VarPool, imports map[string]*Import) (result ast.Expr, err error) {
 	vs.Requires(poolInv(varPool) && imports != nil && importsNonNil(imports))
@@ -883,6 +1001,9 @@ func contract_createASTTypeExpr_spelling(pkg string, t types.Type, varPool *VarP
 	vs.Ensures("chan", vs.Implies(err == nil && vs.TypeIs[*types.Chan](t), spellsChan(result, vs.As[*types.Chan](t))))
 	vs.Ensures("named", vs.Implies(err == nil && vs.TypeIs[*types.Named](t), spellsNamed(result, vs.As[*types.Named](t), pkg, imports)))
 	vs.Ensures("alias", vs.Implies(err == nil && vs.TypeIs[*types.Alias](t), qualifiedName(result, vs.As[*types.Alias](t).Obj(), pkg, imports)))
+	vs.Ensures("signature", vs.Implies(err == nil && vs.TypeIs[*types.Signature](t), spellsSignature(result, vs.As[*types.Signature](t))))
+	vs.Ensures("struct", vs.Implies(err == nil && vs.TypeIs[*types.Struct](t), spellsStruct(result, vs.As[*types.Struct](t))))
+	vs.Ensures("interface", vs.Implies(err == nil && vs.TypeIs[*types.Interface](t), spellsInterface(result, vs.As[*types.Interface](t))))
 	vs.Ensures("imports_only_grow", importsOnlyGrow(imports))
 	vs.Ensures("pool_inv", poolInv(varPool))
 	vs.Modifies(imports, varPool.vars, gSpells)
@@ -894,6 +1015,10 @@ func contract_createASTTypeExpr_spelling(pkg string, t types.Type, varPool *VarP
 func spellingEnv(varPool *VarPool, imports map[string]*Import) bool {
 	return poolInv(varPool) && imports != nil && importsNonNil(imports)
 }
+
+// exprIsNew: the expression did not exist when the function was entered (the parameter is bound to the current value;
+// only the allocation test looks at the old state)
+func exprIsNew(e ast.Expr) bool { return !vs.Old(vs.IsAllocated(e)) }
 
 func earlierRecordsKept() bool {
 	return vs.ForallValue(func(e ast.Expr) bool {
@@ -919,30 +1044,51 @@ func inv_spelling_typeargs(pkg string, varPool *VarPool, imports map[string]*Imp
 }
 
 //kvc:loop createASTTypeExpr@spelling "for method := range typ.Methods()"
-func inv_spelling_methods(varPool *VarPool, imports map[string]*Import) {
+func inv_spelling_methods(varPool *VarPool, imports map[string]*Import, typ *types.Interface, methodFields []*ast.Field, kvcIdx int) {
 	vs.Invariant("env", spellingEnv(varPool, imports))
 	vs.Invariant("earlier_records_kept", earlierRecordsKept())
 	vs.Invariant("imports_only_grow", importsOnlyGrow(imports))
+	vs.Invariant("methods_so_far", len(methodFields) == kvcIdx && vs.Forall(kvcIdx, func(j int) bool {
+		return methodSpelled(methodFields[j], vs.YieldSeq(typ.Methods())[j]) && !vs.Old(vs.IsAllocated(methodFields[j])) && exprIsNew(methodFields[j].Type)
+	}))
 }
 
 //kvc:loop createASTTypeExpr@spelling "for i := 0; i < typ.Params().Len(); i++"
-func inv_spelling_params(varPool *VarPool, imports map[string]*Import) {
+func inv_spelling_params(varPool *VarPool, imports map[string]*Import, typ *types.Signature, funcFields []*ast.Field, i int) {
 	vs.Invariant("env", spellingEnv(varPool, imports))
 	vs.Invariant("earlier_records_kept", earlierRecordsKept())
 	vs.Invariant("imports_only_grow", importsOnlyGrow(imports))
+	vs.Invariant("parameters_count", 0 <= i && i <= typ.Params().Len() && len(funcFields) == i)
+	vs.Invariant("parameters_new", fieldsAreNew(funcFields, i))
+	vs.Invariant("parameter_types_new", fieldTypesAreNew(funcFields, i))
+	vs.Invariant("parameters_named", paramsNamed(funcFields, i))
+	vs.Invariant("parameter_types_spelled", paramTypesSpelled(funcFields, typ, i))
 }
 
 //kvc:loop createASTTypeExpr@spelling "for i := 0; i < typ.Results().Len(); i++"
-func inv_spelling_results(varPool *VarPool, imports map[string]*Import) {
+func inv_spelling_results(varPool *VarPool, imports map[string]*Import, typ *types.Signature, funcFields []*ast.Field, resultsFields []*ast.Field, i int) {
 	vs.Invariant("env", spellingEnv(varPool, imports))
 	vs.Invariant("earlier_records_kept", earlierRecordsKept())
 	vs.Invariant("imports_only_grow", importsOnlyGrow(imports))
+	vs.Invariant("parameters_count", len(funcFields) == typ.Params().Len())
+	vs.Invariant("parameters_new", fieldsAreNew(funcFields, typ.Params().Len()))
+	vs.Invariant("parameter_types_new", fieldTypesAreNew(funcFields, typ.Params().Len()))
+	vs.Invariant("parameters_named", paramsNamed(funcFields, typ.Params().Len()))
+	vs.Invariant("parameter_types_spelled", paramTypesSpelled(funcFields, typ, typ.Params().Len()))
+	vs.Invariant("results_count", 0 <= i && i <= typ.Results().Len() && len(resultsFields) == i)
+	vs.Invariant("results_new", fieldsAreNew(resultsFields, i))
+	vs.Invariant("result_types_new", fieldTypesAreNew(resultsFields, i))
+	vs.Invariant("results_named", resultsNamed(resultsFields, i))
+	vs.Invariant("result_types_spelled", resultTypesSpelled(resultsFields, typ, i))
 }
 
 //kvc:loop createASTTypeExpr@spelling "for i := 0; i < typ.NumFields(); i++"
-func inv_spelling_fields(varPool *VarPool, imports map[string]*Import) {
+func inv_spelling_fields(varPool *VarPool, imports map[string]*Import, typ *types.Struct, fields []*ast.Field, i int) {
 	vs.Invariant("env", spellingEnv(varPool, imports))
 	vs.Invariant("earlier_records_kept", earlierRecordsKept())
 	vs.Invariant("imports_only_grow", importsOnlyGrow(imports))
 	vs.Invariant("old_fields_untouched", oldFieldsUntouched())
+	vs.Invariant("fields_so_far", 0 <= i && i <= typ.NumFields() && len(fields) == i && vs.Forall(i, func(j int) bool {
+		return fieldSpelled(fields[j], typ, j) && !vs.Old(vs.IsAllocated(fields[j])) && exprIsNew(fields[j].Type)
+	}))
 }
